@@ -66,7 +66,7 @@ func (Prop) Assumptions() []string {
 
 // ---------------------------------------------------------------- generation
 
-var derivations = []string{"session", "session", "with_context", "debug", "begin"}
+var derivations = []string{"session", "session", "with_context", "debug", "begin", "session_newdb", "session_skiphooks", "session_newdb_skiphooks", "session_newdb_ctx", "session_ctx_skiphooks"}
 var readFins = []string{"find", "find", "first", "take", "count", "pluck", "rows", "scan", "find_in_batches", "first_or_init", "count_direct", "count_direct", "pluck_direct", "rows_direct", "scan_direct", "last", "row_direct", "row_direct", "row"}
 var writeFins = []string{"update", "updates", "delete", "create", "update_direct"}
 var methods = []string{"model", "model", "where", "where", "where", "or", "not", "select", "omit", "order", "order", "limit", "offset", "group", "having", "joins", "joins", "distinct", "unscoped", "scopes", "preload", "returning", "returning", "order_clause", "locking", "on_conflict", "table", "model", "attrs", "assign", "where_sub", "where_group", "where_group", "joins_db", "table", "from_clause", "group_clause", "limit_clause", "insert_modifier", "inner_joins", "select_expr", "omit_assoc"}
@@ -122,7 +122,9 @@ func (Prop) Gen(r *core.Rand, tier string) interface{} {
 		switch x := r.Intn(10); {
 		case x < 3 && i < n-1:
 			ch.End = r.Pick(derivations)
-			if len(ch.Steps) == 0 {
+			if strings.HasPrefix(ch.End, "session_") && r.Chance(60) {
+				ch.Steps = nil // a sub-session taken straight from the handle
+			} else if len(ch.Steps) == 0 {
 				ch.Steps = append(ch.Steps, genStep(r, handles, palette))
 			}
 		case x < 9:
@@ -167,7 +169,7 @@ func isWrite(e string) bool {
 }
 
 func isDerivation(e string) bool {
-	return e == "session" || e == "with_context" || e == "debug" || e == "begin"
+	return e == "session" || e == "with_context" || e == "debug" || e == "begin" || strings.HasPrefix(e, "session_")
 }
 
 func (Prop) Decode(raw json.RawMessage) (interface{}, error) {
@@ -638,8 +640,40 @@ func derive(db *gorm.DB, how string) *gorm.DB {
 		return db.Debug()
 	case "begin":
 		return db.Begin()
+	case "session_newdb":
+		return db.Session(&gorm.Session{NewDB: true})
+	case "session_skiphooks":
+		return db.Session(&gorm.Session{SkipHooks: true})
+	case "session_newdb_skiphooks":
+		return db.Session(&gorm.Session{NewDB: true, SkipHooks: true})
+	case "session_newdb_ctx":
+		// a sub-session for a request that is already over
+		ctx, cancel := context.WithCancel(context.WithValue(context.Background(), ctxKey{}, "c06-sub"))
+		cancel()
+		return db.Session(&gorm.Session{NewDB: true, Context: ctx})
+	case "session_ctx_skiphooks":
+		return db.Session(&gorm.Session{Context: context.WithValue(context.Background(), ctxKey{}, "c06-sub2"), SkipHooks: true})
 	}
 	return db
+}
+
+// hookEffects makes the model hooks observable in what chains produce: a created
+// user's age and a found user's name carry the hook's mark, so a handle whose
+// hooks were switched off behind its back builds other statements and returns
+// other rows.
+func hookEffects() func() {
+	fam.Sink = func(hc fam.HookCall) error {
+		if u, ok := hc.Rec.(*fam.User); ok {
+			switch hc.Hook {
+			case "BeforeCreate":
+				u.Age += 1000
+			case "AfterFind":
+				u.Name = "found:" + u.Name
+			}
+		}
+		return nil
+	}
+	return func() { fam.Sink = nil }
 }
 
 func (c *Case) open() (*env.Env, error) {
@@ -668,6 +702,7 @@ func (c *Case) history() (map[int]obs, []string, error) {
 		return nil, nil, err
 	}
 	defer e.Close()
+	defer hookEffects()()
 	n := len(c.Chains)
 	handles := make([]*gorm.DB, n+1)
 	handles[0] = e.DB
@@ -730,6 +765,7 @@ func (c *Case) isolated(i int) (obs, error) {
 		return obs{}, err
 	}
 	defer e.Close()
+	defer hookEffects()()
 	n := len(c.Chains)
 	handles := make([]*gorm.DB, n+1)
 	handles[0] = e.DB
